@@ -332,9 +332,12 @@ def _leak_job(arg):
 
 def part_c(ctx):
     kinds = list(LEAK_KINDS)
-    tri = kinds[:4] if ctx.quick else kinds
+    tri = kinds[:3] if ctx.quick else kinds      # quick: triples over the three header kinds; thorough: all five kinds
     seqs = [(k,) for k in kinds] + list(itertools.product(kinds, repeat=2)) + list(itertools.product(tri, repeat=3))
     wd = ctx.workdir('leak')
+    # warm the compiler in this process first (explicit full directive set, no header), so that the forked children do
+    # not each pay the first-compile cost; the children themselves start without any header compiled before them
+    farm.build('warmc', LEAK_BODY, wd, ext='.pyx', cc=False)
     res = farm.pmap(_leak_job, [(i, sq, wd) for i, sq in enumerate(seqs)])
     alone = {}
     evals = 0
